@@ -7,7 +7,8 @@ Obs(w) == [len |-> w.len, cap |-> w.cap, failed |-> w.failed, content |-> Conten
            null |-> BytesIsNull(w), acclen |-> LenOrZero(w)]
 HInit == Init /\ hist = <<[ev |-> "New", kind |-> s.kind, cap |-> s.cap, st |-> Obs(s)]>>
 HNext ==
-  \/ \E c \in Chunks : WriteBegin(c) /\ hist' = Append(hist, [ev |-> "WriteBegin", chunk |-> c, st |-> Obs(s')])
+  \/ \E c \in Chunks : WriteBegin(c) /\ hist' = Append(hist, [ev |-> "WriteBegin", api |-> "str", chunk |-> c, st |-> Obs(s')])
+  \/ \E c \in Chunks : WriteCharBegin(c) /\ hist' = Append(hist, [ev |-> "WriteBegin", api |-> "char", chunk |-> c, st |-> Obs(s')])
   \/ \E n \in 1..MaxCap : GrowOk(n) /\ hist' = Append(hist, [ev |-> "GrowOk", req |-> Needed(s), newcap |-> n, st |-> Obs(s')])
   \/ GrowFail /\ hist' = Append(hist, [ev |-> "GrowFail", req |-> Needed(s), st |-> Obs(s')])
   \/ Copy /\ hist' = Append(hist, [ev |-> "Copy", st |-> Obs(s')])
